@@ -133,7 +133,7 @@ package keeper
 //@ requires validDenom(auction.SellingCoin.Denom)
 //@ ensures [C06,C18] fixed-price-auction-only: result == nil ==> auction.Kind == KindFixed
 //@ ensures [C06,C18] one-of-the-two-denominations: result == nil ==> bid.Coin.Denom == auction.PayingCoinDenom || bid.Coin.Denom == auction.SellingCoin.Denom
-//@ ensures [C06,C18] at-the-auction-price: result == nil ==> bid.Price == auction.StartPrice
+//@ ensures [C06,C18,C04] at-the-auction-price: result == nil ==> bid.Price == auction.StartPrice
 //@ ensures [C06,C05] remainder-covers-the-bid: result == nil ==> sellOf(bid, auction.PayingCoinDenom) <= auction.RemainingSellingCoin.Amount
 //@ ensures [C10,C06] bidder-allow-listed: result == nil ==> AllowedBidder[bid.AuctionId][addrOf(bid.Bidder)].present
 //@ ensures [C05] within-the-cap-alone: result == nil ==> sellOf(bid, auction.PayingCoinDenom) <= AllowedBidder[bid.AuctionId][addrOf(bid.Bidder)].MaxBidAmount
@@ -183,7 +183,7 @@ package keeper
 //@ ensures [C10,C18] only-allow-listed: err == nil ==> old(AllowedBidder[msg.AuctionId][addrOf(msg.Bidder)]).present
 //@ ensures [C18] price-floor: err == nil && old(Auction[msg.AuctionId]).Kind == KindBatch ==> msg.Price >= old(Auction[msg.AuctionId]).MinBidPrice
 //@ ensures [C18,C06] bid-type-matches-auction-type: err == nil ==> (old(Auction[msg.AuctionId]).Kind == KindFixed) == (msg.BidType == BidTypeFixedPrice)
-//@ ensures [C18,C06] fixed-price-terms: err == nil && msg.BidType == BidTypeFixedPrice ==> msg.Price == old(Auction[msg.AuctionId]).StartPrice && (msg.Coin.Denom == old(Auction[msg.AuctionId]).PayingCoinDenom || msg.Coin.Denom == old(Auction[msg.AuctionId]).SellingCoin.Denom)
+//@ ensures [C18,C06,C04] fixed-price-terms: err == nil && msg.BidType == BidTypeFixedPrice ==> msg.Price == old(Auction[msg.AuctionId]).StartPrice && (msg.Coin.Denom == old(Auction[msg.AuctionId]).PayingCoinDenom || msg.Coin.Denom == old(Auction[msg.AuctionId]).SellingCoin.Denom)
 //@ ensures [C18] batch-denominations: err == nil ==> (msg.BidType == BidTypeBatchWorth ==> msg.Coin.Denom == old(Auction[msg.AuctionId]).PayingCoinDenom) && (msg.BidType == BidTypeBatchMany ==> msg.Coin.Denom == old(Auction[msg.AuctionId]).SellingCoin.Denom)
 //@ ensures [C19] bid-id-is-next: err == nil ==> result0.Id == old(BidSeq[msg.AuctionId]) + 1 && BidSeq[msg.AuctionId] == result0.Id
 //@ ensures [C19,C16] recorded-as-placed: err == nil ==> result0.AuctionId == msg.AuctionId && result0.Bidder == msg.Bidder && result0.Type == msg.BidType && result0.Price == msg.Price && result0.Coin == msg.Coin && result0.IsMatched == (msg.BidType == BidTypeFixedPrice) && Bid[msg.AuctionId][result0.Id].present && Bid[msg.AuctionId][result0.Id] == result0
